@@ -22,6 +22,8 @@ type evalCtx struct {
 	// point (a local that is not in scope) is dropped - which only makes the goal harder to prove.
 	goal bool
 	neg  int
+	// norename: already looking up a re-bound name
+	norename bool
 }
 
 func (c *evalCtx) state() *State {
@@ -108,6 +110,18 @@ func (x *Exec) evalIdent(c *evalCtx, name string) (Val, error) {
 	// package-level constants of the module
 	if v, ok := x.lookupConst(name); ok {
 		return v, nil
+	}
+	// a name the contracts use that the function no longer declares: re-bound after a rename (names.go)
+	if c.fr != nil && !c.norename {
+		if cur, kind, ok := x.renamedTo(c.fr.Fn, name); ok {
+			c.norename = true
+			v, err := x.evalIdent(c, cur)
+			c.norename = false
+			if err == nil {
+				x.noteRename(c.fr.Fn, kind, name, cur)
+				return v, nil
+			}
+		}
 	}
 	return Val{}, fmt.Errorf("unknown identifier %q", name)
 }
@@ -760,8 +774,19 @@ func (x *Exec) evalCall(c *evalCtx, call ECall) (Val, error) {
 		if cfn == nil {
 			return Val{}, fmt.Errorf("captured: unknown function %s", key)
 		}
+		curName := name
+		hasFV := false
+		for _, fv := range cfn.FreeVars {
+			hasFV = hasFV || fv.Name() == name
+		}
+		if !hasFV { // the captured variable was renamed (names.go)
+			if cn, kind, ok := x.renamedTo(cfn, name); ok && kind == "freevar" {
+				curName = cn
+				x.noteRename(cfn, kind, name, cn)
+			}
+		}
 		for i, fv := range cfn.FreeVars {
-			if fv.Name() != name {
+			if fv.Name() != curName {
 				continue
 			}
 			vt := fv.Type()
